@@ -18,6 +18,7 @@ ASSUMPTIONS = [
     "add(o, ...) is only issued for a side of o that is currently unset, with start <= end",
     "empty points created by an explicit get_or_add_point are allowed (not required) to persist",
     "order of objects inside one time point is not compared",
+    "read-only queries are interleaved by replaying every history a second time with a fixed light query sweep after every operation",
 ]
 CHUNK = 8
 
@@ -153,7 +154,28 @@ def impl_apply(part, objs, op):
             raise AssertionError("get_or_add_point(%r) returned %r" % (op[1], tp))
 
 
-def build(pool, hist):
+def light_sweep(part):
+    """A handful of read-only queries that visit every per-class registry of every point (they are
+    the queries of a client that looks at the part between edits); results are checked by the full
+    sweep elsewhere - here only their side effects on later operations matter."""
+    import partitura.score as S
+
+    n = 0
+    for mode in ("starting", "ending"):
+        for o in part.iter_all(S.TimedObject, include_subclasses=True, mode=mode):
+            n += 1
+        for o in part.iter_all(S.Rest, mode=mode):
+            n += 1
+    fp, lp = part.first_point, part.last_point
+    if fp is not None:
+        for o in fp.iter_next(S.Slur, eq=True):
+            n += 1
+        for o in lp.iter_prev(S.GenericNote, eq=True, include_subclasses=True):
+            n += 1
+    return n
+
+
+def build(pool, hist, querying=False):
     import partitura.score as S
 
     part = S.Part("P0")
@@ -162,6 +184,8 @@ def build(pool, hist):
     for op in hist:
         impl_apply(part, objs, op)
         ref.apply(op)
+        if querying:
+            light_sweep(part)
     return part, objs, ref
 
 
@@ -460,21 +484,36 @@ def eval_case(case):
         return res
     succ = []
     for op in ref.enabled(T, Q):
-        p2, o2, r2 = build(pool, hist)
-        before = snapshot(p2, o2)
-        res.transitions += 1
-        try:
-            impl_apply(p2, o2, op)
-        except Exception as ex:
-            after = snapshot(p2, o2)
-            res.fail("operation-total", kind="exception", where=innermost_partitura_frame(ex), observed=exc_text(ex),
-                     detail="hist=%r op=%r%s" % (hist, op, "" if after == before else " (part left partly updated)"))
-            continue
-        r2.apply(op)
-        c2 = "hist=%r" % (hist + [op],)
-        if not structural(res, p2, o2, r2, c2):
-            continue
-        succ.append((impl_key(p2, o2), dict(pool=pool, hist=hist + [op], T=case["T"], Q=Q)))
+        key = None
+        # every transition is taken twice: on the plain state, and on the same state reached by a
+        # client that ran read-only queries after every earlier operation (interleaved queries)
+        for querying in (False, True):
+            p2, o2, r2 = build(pool, hist, querying=querying)
+            before = snapshot(p2, o2)
+            res.transitions += 1
+            tag = " [queries interleaved after every operation]" if querying else ""
+            try:
+                impl_apply(p2, o2, op)
+            except Exception as ex:
+                after = snapshot(p2, o2)
+                res.fail("operation-total", kind="exception", where=innermost_partitura_frame(ex), observed=exc_text(ex),
+                         detail="hist=%r op=%r%s%s" % (hist, op, "" if after == before else " (part left partly updated)", tag))
+                key = None
+                break
+            r2.apply(op)
+            c2 = "hist=%r%s" % (hist + [op], tag)
+            if not structural(res, p2, o2, r2, c2):
+                key = None
+                break
+            k2 = impl_key(p2, o2)
+            if querying and k2 != key:
+                res.fail("queries-are-read-only", expected="same state with and without interleaved read-only queries",
+                         observed=[key, k2], where="Part.iter_all", detail=c2)
+                key = None
+                break
+            key = k2
+        if key is not None:
+            succ.append((key, dict(pool=pool, hist=hist + [op], T=case["T"], Q=Q)))
     res.payload = succ
     return res
 
